@@ -23,4 +23,1213 @@ def SolveOut.Same (a b : SolveOut α) : Prop :=
   a.regOne = b.regOne ∧ a.regTwo = b.regTwo ∧ a.stratOne = b.stratOne ∧ a.stratTwo = b.stratTwo ∧
   a.iters = b.iters ∧ a.log.Perm b.log
 
+/-! Everything below is internal to the proofs of C06 / C07 (vanilla part) and lives in `Cfr.Van`. -/
+namespace Van
+
+/-- an event of the pure traversal: an accumulation, or a visit of a sampled chance infoset -/
+abbrev Ev (α : Type) := Eff α ⊕ Nat
+
+def effsOf (l : List (Ev α)) : List (Eff α) := l.filterMap (Sum.elim some (fun _ => none))
+def idsOf (l : List (Ev α)) : List Nat := l.filterMap (Sum.elim (fun _ => none) some)
+
+@[simp] theorem effsOf_nil : effsOf ([] : List (Ev α)) = [] := rfl
+@[simp] theorem idsOf_nil : idsOf ([] : List (Ev α)) = [] := rfl
+@[simp] theorem effsOf_append (a b : List (Ev α)) : effsOf (a ++ b) = effsOf a ++ effsOf b := by
+  simp [effsOf]
+@[simp] theorem idsOf_append (a b : List (Ev α)) : idsOf (a ++ b) = idsOf a ++ idsOf b := by
+  simp [idsOf]
+@[simp] theorem effsOf_inl (e : Eff α) (l : List (Ev α)) : effsOf (.inl e :: l) = e :: effsOf l := by
+  simp [effsOf]
+@[simp] theorem effsOf_inr (i : Nat) (l : List (Ev α)) : effsOf (.inr i :: l) = effsOf l := rfl
+@[simp] theorem idsOf_inl (e : Eff α) (l : List (Ev α)) : idsOf (.inl e :: l) = idsOf l := rfl
+@[simp] theorem idsOf_inr (i : Nat) (l : List (Ev α)) : idsOf (.inr i :: l) = i :: idsOf l := by
+  simp [idsOf]
+@[simp] theorem effsOf_map_inl (l : List (Eff α)) : effsOf (l.map (Sum.inl : Eff α → Ev α)) = l := by
+  induction l with
+  | nil => rfl
+  | cons e l ih => simp [ih]
+@[simp] theorem idsOf_map_inl (l : List (Eff α)) : idsOf (l.map (Sum.inl : Eff α → Ev α)) = [] := by
+  induction l with
+  | nil => rfl
+  | cons e l ih => simp [ih]
+theorem effsOf_perm {a b : List (Ev α)} (h : a.Perm b) : (effsOf a).Perm (effsOf b) :=
+  h.filterMap _
+theorem idsOf_perm {a b : List (Ev α)} (h : a.Perm b) : (idsOf a).Perm (idsOf b) :=
+  h.filterMap _
+theorem mem_idsOf {i : Nat} {l : List (Ev α)} : i ∈ idsOf l ↔ Sum.inr i ∈ l := by
+  induction l with
+  | nil => simp
+  | cons e l ih => cases e <;> simp [ih]
+
+/-- the outcome the oracle gives at chance infoset `i` in this pass -/
+def kdraw (c : VCtx α) (i : Nat) : Nat := c.draw 0 i c.pass (c.ch.getD i [])
+
+mutual
+/-- the traversal without the draw state: every sampled chance infoset follows the oracle -/
+def pv (c : VCtx α) (cache : List (Path × α)) : Node α → Path → α → α → α → α × List (Ev α)
+  | n, path, pc, p1, p2 =>
+    match cacheGet cache path with
+    | some pay => (pay, [])
+    | none =>
+      match n with
+      | .term p => (p, [])
+      | .chance i ks =>
+        if c.sampled then
+          ((pvNth c cache ks (kdraw c i) (path ++ [kdraw c i]) pc p1 p2).1,
+            .inr i :: (pvNth c cache ks (kdraw c i) (path ++ [kdraw c i]) pc p1 p2).2)
+        else pvChance c cache (c.ch.getD i []) ks path 0 pc p1 p2 0
+      | .player one i ks =>
+        ((pvActs c cache one i (if one then pc * p2 else -p1 * pc) (c.strat one i) ks path pc p1 p2 0 0 0).1,
+          (stratEffs one i (if one then p1 else p2) (c.strat one i) 0).map .inl
+            ++ (pvActs c cache one i (if one then pc * p2 else -p1 * pc) (c.strat one i) ks path pc p1 p2 0 0 0).2.2
+            ++ (subEffs one i (pvActs c cache one i (if one then pc * p2 else -p1 * pc) (c.strat one i) ks path pc p1 p2 0 0 0).2.1
+                  (c.strat one i).length).map .inl)
+def pvNth (c : VCtx α) (cache : List (Path × α)) :
+    List (Node α) → Nat → Path → α → α → α → α × List (Ev α)
+  | [], _, _, _, _, _ => (0, [])
+  | k :: _, 0, path, pc, p1, p2 => pv c cache k path pc p1 p2
+  | _ :: ks, n + 1, path, pc, p1, p2 => pvNth c cache ks n path pc p1 p2
+def pvChance (c : VCtx α) (cache : List (Path × α)) :
+    List α → List (Node α) → Path → Nat → α → α → α → α → α × List (Ev α)
+  | p :: ps, k :: ks, path, a, pc, p1, p2, acc =>
+    ((pvChance c cache ps ks path (a + 1) pc p1 p2 (acc + p * (pv c cache k (path ++ [a]) (pc * p) p1 p2).1)).1,
+      (pv c cache k (path ++ [a]) (pc * p) p1 p2).2
+        ++ (pvChance c cache ps ks path (a + 1) pc p1 p2 (acc + p * (pv c cache k (path ++ [a]) (pc * p) p1 p2).1)).2)
+  | _, _, _, _, _, _, _, acc => (acc, [])
+def pvActs (c : VCtx α) (cache : List (Path × α)) (one : Bool) (i : Nat) (mult : α) :
+    List α → List (Node α) → Path → α → α → α → Nat → α → α → α × α × List (Ev α)
+  | s :: σ, k :: ks, path, pc, p1, p2, a, eo, ex =>
+    let r := if one then pv c cache k (path ++ [a]) pc (p1 * s) p2
+      else pv c cache k (path ++ [a]) pc p1 (p2 * s)
+    let r' := pvActs c cache one i mult σ ks path pc p1 p2 (a + 1) (eo + s * r.1) (ex + r.1 * mult * s)
+    (r'.1, r'.2.1, r.2 ++ .inl ⟨one, i, .regret, a, r.1 * mult⟩ :: r'.2.2)
+  | _, _, _, _, _, _, _, eo, ex => (eo, ex, [])
+end
+
+theorem cacheGet_nil (p : Path) : cacheGet ([] : List (Path × α)) p = none := by
+  simp [cacheGet]
+
+theorem pv_hit (c : VCtx α) (cache : List (Path × α)) (n : Node α) (path : Path) (pc p1 p2 v : α)
+    (h : cacheGet cache path = some v) : pv c cache n path pc p1 p2 = (v, []) := by
+  rw [pv.eq_def]; simp only [h]
+
+theorem pv_term (c : VCtx α) (cache : List (Path × α)) (p : α) (path : Path) (pc p1 p2 : α)
+    (h : cacheGet cache path = none) : pv c cache (.term p) path pc p1 p2 = (p, []) := by
+  rw [pv.eq_def]; simp only [h]
+
+theorem pv_chance_s (c : VCtx α) (cache : List (Path × α)) (i : Nat) (ks : List (Node α))
+    (path : Path) (pc p1 p2 : α) (h : cacheGet cache path = none) (hs : c.sampled = true) :
+    pv c cache (.chance i ks) path pc p1 p2 =
+      ((pvNth c cache ks (kdraw c i) (path ++ [kdraw c i]) pc p1 p2).1,
+        .inr i :: (pvNth c cache ks (kdraw c i) (path ++ [kdraw c i]) pc p1 p2).2) := by
+  rw [pv.eq_def]; simp only [h, hs, if_true]
+
+theorem pv_chance_f (c : VCtx α) (cache : List (Path × α)) (i : Nat) (ks : List (Node α))
+    (path : Path) (pc p1 p2 : α) (h : cacheGet cache path = none) (hs : c.sampled = false) :
+    pv c cache (.chance i ks) path pc p1 p2 =
+      pvChance c cache (c.ch.getD i []) ks path 0 pc p1 p2 0 := by
+  rw [pv.eq_def]; simp only [h, hs, Bool.false_eq_true, if_false]
+
+theorem pv_player (c : VCtx α) (cache : List (Path × α)) (one : Bool) (i : Nat) (ks : List (Node α))
+    (path : Path) (pc p1 p2 : α) (h : cacheGet cache path = none) :
+    pv c cache (.player one i ks) path pc p1 p2 =
+      ((pvActs c cache one i (if one then pc * p2 else -p1 * pc) (c.strat one i) ks path pc p1 p2 0 0 0).1,
+        (stratEffs one i (if one then p1 else p2) (c.strat one i) 0).map .inl
+          ++ (pvActs c cache one i (if one then pc * p2 else -p1 * pc) (c.strat one i) ks path pc p1 p2 0 0 0).2.2
+          ++ (subEffs one i (pvActs c cache one i (if one then pc * p2 else -p1 * pc) (c.strat one i) ks path pc p1 p2 0 0 0).2.1
+                (c.strat one i).length).map .inl) := by
+  rw [pv.eq_def]; simp only [h]
+
+
+/-! ## draw states -/
+
+/-- every cached sample is the oracle's answer -/
+def Cons (c : VCtx α) (d : DrawSt α) : Prop :=
+  ∀ i k, assocGet d.chance i = some k → k = kdraw c i
+
+def drawOne (c : VCtx α) (i : Nat) (d : DrawSt α) : DrawSt α :=
+  (sampleChance c.draw c.pass (c.ch.getD i []) i d).2
+
+def drawAll (c : VCtx α) (ids : List Nat) (d : DrawSt α) : DrawSt α :=
+  ids.foldl (fun d i => drawOne c i d) d
+
+@[simp] theorem drawAll_nil (c : VCtx α) (d : DrawSt α) : drawAll c [] d = d := rfl
+@[simp] theorem drawAll_cons (c : VCtx α) (i : Nat) (ids : List Nat) (d : DrawSt α) :
+    drawAll c (i :: ids) d = drawAll c ids (drawOne c i d) := rfl
+theorem drawAll_append (c : VCtx α) (a b : List Nat) (d : DrawSt α) :
+    drawAll c (a ++ b) d = drawAll c b (drawAll c a d) := by
+  simp [drawAll, List.foldl_append]
+
+theorem assocGet_cons' (a b : Nat) (l : List (Nat × Nat)) (j : Nat) :
+    assocGet ((a, b) :: l) j = if a = j then some b else assocGet l j := by
+  unfold assocGet
+  by_cases hj : a = j
+  · simp [hj]
+  · simp [hj]
+
+theorem sampleChance_cons (c : VCtx α) (i : Nat) (d : DrawSt α) (h : Cons c d) :
+    sampleChance c.draw c.pass (c.ch.getD i []) i d = (kdraw c i, drawOne c i d) := by
+  unfold drawOne
+  cases hg : assocGet d.chance i with
+  | some k => simp only [sampleChance, hg]; rw [h i k hg]
+  | none => simp only [sampleChance, hg]; rfl
+
+theorem Cons.drawOne {c : VCtx α} {d : DrawSt α} (h : Cons c d) (i : Nat) : Cons c (drawOne c i d) := by
+  unfold Cfr.Van.drawOne
+  cases hg : assocGet d.chance i with
+  | some k => simp only [sampleChance, hg]; exact h
+  | none =>
+    simp only [sampleChance, hg]
+    intro j k hj
+    rw [assocGet_cons'] at hj
+    split_ifs at hj with hij
+    · subst hij; simp only [Option.some.injEq] at hj; rw [← hj]; rfl
+    · exact h j k hj
+
+theorem Cons.drawAll {c : VCtx α} (ids : List Nat) : ∀ {d : DrawSt α}, Cons c d → Cons c (drawAll c ids d) := by
+  induction ids with
+  | nil => intro d h; exact h
+  | cons i ids ih => intro d h; exact ih (h.drawOne i)
+
+mutual
+theorem vrecC_pv (c : VCtx α) (cache : List (Path × α)) :
+    ∀ (n : Node α) (path : Path) (pc p1 p2 : α) (d : DrawSt α), Cons c d →
+      vrecC c cache n path pc p1 p2 d =
+        ((pv c cache n path pc p1 p2).1, effsOf (pv c cache n path pc p1 p2).2,
+          drawAll c (idsOf (pv c cache n path pc p1 p2).2) d)
+  | .term p, path, pc, p1, p2, d, hd => by
+    rw [vrecC.eq_def, pv.eq_def]
+    cases hc : cacheGet cache path <;> simp [hc]
+  | .chance i ks, path, pc, p1, p2, d, hd => by
+    rw [vrecC.eq_def, pv.eq_def]
+    cases hc : cacheGet cache path with
+    | some v => simp [hc]
+    | none =>
+      cases hs : c.sampled with
+      | true =>
+        simp only [hc, if_true, sampleChance_cons c i d hd]
+        rw [vrecCNth_pv c cache ks _ _ pc p1 p2 _ (hd.drawOne i)]
+        simp
+      | false =>
+        simp only [hc, Bool.false_eq_true, if_false]
+        exact vrecCChance_pv c cache _ ks path 0 pc p1 p2 d 0 hd
+  | .player one i ks, path, pc, p1, p2, d, hd => by
+    rw [vrecC.eq_def, pv.eq_def]
+    cases hc : cacheGet cache path with
+    | some v => simp [hc]
+    | none =>
+      simp only [hc]
+      rw [vrecCActs_pv c cache one i _ _ ks path pc p1 p2 d 0 0 0 hd]
+      simp
+theorem vrecCNth_pv (c : VCtx α) (cache : List (Path × α)) :
+    ∀ (ks : List (Node α)) (k : Nat) (path : Path) (pc p1 p2 : α) (d : DrawSt α), Cons c d →
+      vrecCNth c cache ks k path pc p1 p2 d =
+        ((pvNth c cache ks k path pc p1 p2).1, effsOf (pvNth c cache ks k path pc p1 p2).2,
+          drawAll c (idsOf (pvNth c cache ks k path pc p1 p2).2) d)
+  | [], _, _, _, _, _, d, _ => by simp [vrecCNth, pvNth]
+  | k :: _, 0, path, pc, p1, p2, d, hd => by
+    simp only [vrecCNth, pvNth]; exact vrecC_pv c cache k path pc p1 p2 d hd
+  | _ :: ks, n + 1, path, pc, p1, p2, d, hd => by
+    simp only [vrecCNth, pvNth]; exact vrecCNth_pv c cache ks n path pc p1 p2 d hd
+theorem vrecCChance_pv (c : VCtx α) (cache : List (Path × α)) :
+    ∀ (ps : List α) (ks : List (Node α)) (path : Path) (a : Nat) (pc p1 p2 : α) (d : DrawSt α)
+      (acc : α), Cons c d →
+      vrecCChance c cache ps ks path a pc p1 p2 d acc =
+        ((pvChance c cache ps ks path a pc p1 p2 acc).1,
+          effsOf (pvChance c cache ps ks path a pc p1 p2 acc).2,
+          drawAll c (idsOf (pvChance c cache ps ks path a pc p1 p2 acc).2) d)
+  | p :: ps, k :: ks, path, a, pc, p1, p2, d, acc, hd => by
+    simp only [vrecCChance, pvChance]
+    rw [vrecC_pv c cache k (path ++ [a]) (pc * p) p1 p2 d hd]
+    simp only
+    rw [vrecCChance_pv c cache ps ks path (a + 1) pc p1 p2 _ _ (hd.drawAll _)]
+    simp [drawAll_append]
+  | [], _, _, _, _, _, _, d, _, _ => by simp [vrecCChance, pvChance]
+  | _ :: _, [], _, _, _, _, _, d, _, _ => by simp [vrecCChance, pvChance]
+theorem vrecCActs_pv (c : VCtx α) (cache : List (Path × α)) (one : Bool) (i : Nat) (mult : α) :
+    ∀ (σ : List α) (ks : List (Node α)) (path : Path) (pc p1 p2 : α) (d : DrawSt α) (a : Nat)
+      (eo ex : α), Cons c d →
+      vrecCActs c cache one i mult σ ks path pc p1 p2 d a eo ex =
+        ((pvActs c cache one i mult σ ks path pc p1 p2 a eo ex).1,
+          (pvActs c cache one i mult σ ks path pc p1 p2 a eo ex).2.1,
+          effsOf (pvActs c cache one i mult σ ks path pc p1 p2 a eo ex).2.2,
+          drawAll c (idsOf (pvActs c cache one i mult σ ks path pc p1 p2 a eo ex).2.2) d)
+  | s :: σ, k :: ks, path, pc, p1, p2, d, a, eo, ex, hd => by
+    simp only [vrecCActs, pvActs]
+    cases one
+    · simp only [Bool.false_eq_true, if_false]
+      rw [vrecC_pv c cache k (path ++ [a]) pc p1 (p2 * s) d hd]
+      simp only
+      rw [vrecCActs_pv c cache false i mult σ ks path pc p1 p2 _ _ _ _ (hd.drawAll _)]
+      simp [drawAll_append]
+    · simp only [if_true]
+      rw [vrecC_pv c cache k (path ++ [a]) pc (p1 * s) p2 d hd]
+      simp only
+      rw [vrecCActs_pv c cache true i mult σ ks path pc p1 p2 _ _ _ _ (hd.drawAll _)]
+      simp [drawAll_append]
+  | [], _, _, _, _, _, d, _, _, _, _ => by simp [vrecCActs, pvActs]
+  | _ :: _, [], _, _, _, _, d, _, _, _, _ => by simp [vrecCActs, pvActs]
+end
+
+
+/-! ## the cached traversal with an empty cache is the plain traversal -/
+
+mutual
+theorem vrecC_nil (c : VCtx α) : ∀ (n : Node α) (path : Path) (pc p1 p2 : α) (d : DrawSt α),
+    vrecC c [] n path pc p1 p2 d = vrec c n pc p1 p2 d
+  | .term p, path, pc, p1, p2, d => by
+    rw [vrecC]; simp only [cacheGet_nil, vrec]
+  | .chance i ks, path, pc, p1, p2, d => by
+    rw [vrecC]; simp only [cacheGet_nil, vrec]
+    split_ifs with h
+    · exact vrecCNth_nil c ks _ _ pc p1 p2 _
+    · exact vrecCChance_nil c _ ks path 0 pc p1 p2 d 0
+  | .player one i ks, path, pc, p1, p2, d => by
+    rw [vrecC]; simp only [cacheGet_nil, vrec]
+    rw [vrecCActs_nil c one i _ _ ks path pc p1 p2 d 0 0 0]
+theorem vrecCNth_nil (c : VCtx α) : ∀ (ks : List (Node α)) (k : Nat) (path : Path) (pc p1 p2 : α)
+    (d : DrawSt α), vrecCNth c [] ks k path pc p1 p2 d = vrecNth c ks k pc p1 p2 d
+  | [], _, _, _, _, _, d => by simp only [vrecCNth, vrecNth]
+  | k :: _, 0, path, pc, p1, p2, d => by
+    simp only [vrecCNth, vrecNth]; exact vrecC_nil c k path pc p1 p2 d
+  | _ :: ks, n + 1, path, pc, p1, p2, d => by
+    simp only [vrecCNth, vrecNth]; exact vrecCNth_nil c ks n path pc p1 p2 d
+theorem vrecCChance_nil (c : VCtx α) : ∀ (ps : List α) (ks : List (Node α)) (path : Path) (a : Nat)
+    (pc p1 p2 : α) (d : DrawSt α) (acc : α),
+    vrecCChance c [] ps ks path a pc p1 p2 d acc = vrecChance c ps ks pc p1 p2 d acc
+  | p :: ps, k :: ks, path, a, pc, p1, p2, d, acc => by
+    simp only [vrecCChance, vrecChance]
+    rw [vrecC_nil c k (path ++ [a]) (pc * p) p1 p2 d, vrecCChance_nil c ps ks path (a + 1)]
+  | [], _, _, _, _, _, _, d, _ => by simp only [vrecCChance, vrecChance]
+  | _ :: _, [], _, _, _, _, _, d, _ => by simp only [vrecCChance, vrecChance]
+theorem vrecCActs_nil (c : VCtx α) (one : Bool) (i : Nat) (mult : α) : ∀ (σ : List α)
+    (ks : List (Node α)) (path : Path) (pc p1 p2 : α) (d : DrawSt α) (a : Nat) (eo ex : α),
+    vrecCActs c [] one i mult σ ks path pc p1 p2 d a eo ex
+      = vrecActs c one i mult σ ks pc p1 p2 d a eo ex
+  | s :: σ, k :: ks, path, pc, p1, p2, d, a, eo, ex => by
+    simp only [vrecCActs, vrecActs]
+    rw [vrecC_nil c k (path ++ [a]) pc (p1 * s) p2 d, vrecC_nil c k (path ++ [a]) pc p1 (p2 * s) d]
+    cases one
+    · simp only [Bool.false_eq_true, if_false]
+      rw [vrecCActs_nil c false i mult σ ks path]
+    · simp only [if_true]
+      rw [vrecCActs_nil c true i mult σ ks path]
+  | [], _, _, _, _, _, d, _, _, _ => by simp only [vrecCActs, vrecActs]
+  | _ :: _, [], _, _, _, _, d, _, _, _ => by simp only [vrecCActs, vrecActs]
+end
+
+/-! ## prefixes -/
+
+theorem prefix_of_snoc_prefix {p q : Path} {a : Nat} (h : p ++ [a] <+: q) : p <+: q :=
+  (List.prefix_append p [a]).trans h
+
+theorem snoc_prefix_inj {p q : Path} {a b : Nat} (h1 : p ++ [a] <+: q) (h2 : p ++ [b] <+: q) :
+    a = b := by
+  obtain ⟨t, ht⟩ := h1
+  obtain ⟨t', ht'⟩ := h2
+  rw [← ht', List.append_assoc, List.append_assoc] at ht
+  have := List.append_cancel_left ht
+  exact (by simpa using this : a = b ∧ t = t').1
+
+theorem cacheGet_cons (p : Path) (v : α) (C : List (Path × α)) (q : Path) :
+    cacheGet ((p, v) :: C) q = if p = q then some v else cacheGet C q := by
+  unfold cacheGet
+  by_cases h : p = q
+  · simp [h]
+  · simp [h]
+
+theorem cacheGet_eq_none {C : List (Path × α)} {q : Path} (h : ∀ e ∈ C, e.1 ≠ q) :
+    cacheGet C q = none := by
+  unfold cacheGet
+  rw [Option.map_eq_none_iff, List.find?_eq_none]
+  intro e he
+  simpa using h e he
+
+/-! ## only the cache entries below a node matter -/
+
+mutual
+theorem pv_irr (c : VCtx α) (C' C : List (Path × α)) :
+    ∀ (n : Node α) (path : Path) (pc p1 p2 : α),
+      (∀ q, path <+: q → cacheGet C' q = cacheGet C q) →
+      pv c C' n path pc p1 p2 = pv c C n path pc p1 p2
+  | .term p, path, pc, p1, p2, h => by
+    have h0 := h path (List.prefix_refl _)
+    cases hc : cacheGet C path with
+    | some v => rw [pv_hit c C _ _ _ _ _ v hc, pv_hit c C' _ _ _ _ _ v (h0.trans hc)]
+    | none => rw [pv_term c C _ _ _ _ _ hc, pv_term c C' _ _ _ _ _ (h0.trans hc)]
+  | .chance i ks, path, pc, p1, p2, h => by
+    have h0 := h path (List.prefix_refl _)
+    cases hc : cacheGet C path with
+    | some v => rw [pv_hit c C _ _ _ _ _ v hc, pv_hit c C' _ _ _ _ _ v (h0.trans hc)]
+    | none =>
+      cases hs : c.sampled with
+      | true =>
+        rw [pv_chance_s c C _ _ _ _ _ _ hc hs, pv_chance_s c C' _ _ _ _ _ _ (h0.trans hc) hs,
+          pvNth_irr c C' C ks (kdraw c i) (path ++ [kdraw c i]) pc p1 p2
+            (fun q hq => h q (prefix_of_snoc_prefix hq))]
+      | false =>
+        rw [pv_chance_f c C _ _ _ _ _ _ hc hs, pv_chance_f c C' _ _ _ _ _ _ (h0.trans hc) hs,
+          pvChance_irr c C' C (c.ch.getD i []) ks path 0 pc p1 p2 0
+            (fun b _ q hq => h q (prefix_of_snoc_prefix hq))]
+  | .player one i ks, path, pc, p1, p2, h => by
+    have h0 := h path (List.prefix_refl _)
+    cases hc : cacheGet C path with
+    | some v => rw [pv_hit c C _ _ _ _ _ v hc, pv_hit c C' _ _ _ _ _ v (h0.trans hc)]
+    | none =>
+      rw [pv_player c C _ _ _ _ _ _ _ hc, pv_player c C' _ _ _ _ _ _ _ (h0.trans hc),
+        pvActs_irr c C' C one i _ (c.strat one i) ks path pc p1 p2 0 0 0
+          (fun b _ q hq => h q (prefix_of_snoc_prefix hq))]
+theorem pvNth_irr (c : VCtx α) (C' C : List (Path × α)) :
+    ∀ (ks : List (Node α)) (k : Nat) (path : Path) (pc p1 p2 : α),
+      (∀ q, path <+: q → cacheGet C' q = cacheGet C q) →
+      pvNth c C' ks k path pc p1 p2 = pvNth c C ks k path pc p1 p2
+  | [], _, _, _, _, _, _ => by simp only [pvNth]
+  | k :: _, 0, path, pc, p1, p2, h => by
+    simp only [pvNth]; exact pv_irr c C' C k path pc p1 p2 h
+  | _ :: ks, n + 1, path, pc, p1, p2, h => by
+    simp only [pvNth]; exact pvNth_irr c C' C ks n path pc p1 p2 h
+theorem pvChance_irr (c : VCtx α) (C' C : List (Path × α)) :
+    ∀ (ps : List α) (ks : List (Node α)) (path : Path) (a : Nat) (pc p1 p2 acc : α),
+      (∀ b, a ≤ b → ∀ q, path ++ [b] <+: q → cacheGet C' q = cacheGet C q) →
+      pvChance c C' ps ks path a pc p1 p2 acc = pvChance c C ps ks path a pc p1 p2 acc
+  | p :: ps, k :: ks, path, a, pc, p1, p2, acc, h => by
+    simp only [pvChance]
+    rw [pv_irr c C' C k (path ++ [a]) (pc * p) p1 p2 (h a (Nat.le_refl a)),
+      pvChance_irr c C' C ps ks path (a + 1) pc p1 p2 _ (fun b hb => h b (by omega))]
+  | [], _, _, _, _, _, _, _, _ => by simp only [pvChance]
+  | _ :: _, [], _, _, _, _, _, _, _ => by simp only [pvChance]
+theorem pvActs_irr (c : VCtx α) (C' C : List (Path × α)) (one : Bool) (i : Nat) (mult : α) :
+    ∀ (σ : List α) (ks : List (Node α)) (path : Path) (pc p1 p2 : α) (a : Nat) (eo ex : α),
+      (∀ b, a ≤ b → ∀ q, path ++ [b] <+: q → cacheGet C' q = cacheGet C q) →
+      pvActs c C' one i mult σ ks path pc p1 p2 a eo ex
+        = pvActs c C one i mult σ ks path pc p1 p2 a eo ex
+  | s :: σ, k :: ks, path, pc, p1, p2, a, eo, ex, h => by
+    simp only [pvActs]
+    rw [pv_irr c C' C k (path ++ [a]) pc (p1 * s) p2 (h a (Nat.le_refl a)),
+      pv_irr c C' C k (path ++ [a]) pc p1 (p2 * s) (h a (Nat.le_refl a)),
+      pvActs_irr c C' C one i mult σ ks path pc p1 p2 (a + 1) _ _ (fun b hb => h b (by omega))]
+  | [], _, _, _, _, _, _, _, _, _ => by simp only [pvActs]
+  | _ :: _, [], _, _, _, _, _, _, _, _ => by simp only [pvActs]
+end
+
+
+/-! ## positions in the tree -/
+
+/-- the pure traversal of the subtree an item stands for -/
+def pvI (c : VCtx α) (C : List (Path × α)) (x : VItem α) : α × List (Ev α) :=
+  pv c C x.node x.path x.pc x.p1 x.p2
+
+/-- the child the plain traversal reaches from `x` through index `a`, with its reach triple -/
+def vstep (c : VCtx α) (x : VItem α) (a : Nat) : Option (VItem α) :=
+  match x.node with
+  | .term _ => none
+  | .chance i ks =>
+    if c.sampled then
+      if a = kdraw c i then (ks[a]?).map (fun n => ⟨x.path ++ [a], n, x.pc, x.p1, x.p2⟩) else none
+    else
+      match (c.ch.getD i [])[a]?, ks[a]? with
+      | some p, some n => some ⟨x.path ++ [a], n, x.pc * p, x.p1, x.p2⟩
+      | _, _ => none
+  | .player one i ks =>
+    match (c.strat one i)[a]?, ks[a]? with
+    | some s, some n =>
+      some (if one then ⟨x.path ++ [a], n, x.pc, x.p1 * s, x.p2⟩
+        else ⟨x.path ++ [a], n, x.pc, x.p1, x.p2 * s⟩)
+    | _, _ => none
+
+/-- follow a path -/
+def vdesc (c : VCtx α) : VItem α → List Nat → Option (VItem α)
+  | x, [] => some x
+  | x, a :: r => (vstep c x a).bind (fun y => vdesc c y r)
+
+theorem vstep_path {c : VCtx α} {x y : VItem α} {a : Nat} (h : vstep c x a = some y) :
+    y.path = x.path ++ [a] := by
+  unfold vstep at h
+  split at h
+  · exact absurd h (by simp)
+  · split_ifs at h
+    · simp only [Option.map_eq_some_iff] at h
+      obtain ⟨n, -, h⟩ := h
+      rw [← h]
+    · split at h
+      · simp only [Option.some.injEq] at h; rw [← h]
+      · exact absurd h (by simp)
+  · split at h
+    · simp only [Option.some.injEq] at h; rw [← h]; split_ifs <;> rfl
+    · exact absurd h (by simp)
+
+theorem vdesc_path {c : VCtx α} : ∀ (r : List Nat) {x y : VItem α}, vdesc c x r = some y →
+    y.path = x.path ++ r
+  | [], x, y, h => by simp only [vdesc, Option.some.injEq] at h; rw [← h]; simp
+  | a :: r, x, y, h => by
+    simp only [vdesc] at h
+    cases hs : vstep c x a with
+    | none => simp [hs] at h
+    | some z =>
+      simp only [hs, Option.bind_some] at h
+      rw [vdesc_path r h, vstep_path hs]; simp
+
+theorem vdesc_append (c : VCtx α) : ∀ (r s : List Nat) (x : VItem α),
+    vdesc c x (r ++ s) = (vdesc c x r).bind (fun y => vdesc c y s)
+  | [], s, x => by simp [vdesc]
+  | a :: r, s, x => by
+    simp only [List.cons_append, vdesc]
+    cases hs : vstep c x a with
+    | none => simp
+    | some z => simp only [Option.bind_some]; exact vdesc_append c r s z
+
+theorem vdesc_snoc (c : VCtx α) (r : List Nat) (a : Nat) (x y z : VItem α)
+    (h1 : vdesc c x r = some y) (h2 : vstep c y a = some z) : vdesc c x (r ++ [a]) = some z := by
+  rw [vdesc_append, h1]; simp [vdesc, h2]
+
+/-! ## permutation bookkeeping -/
+
+theorem perm_head {β : Type} {h' h E : List β} (t : List β) (hp : (h' ++ E).Perm h) :
+    (h' ++ t ++ E).Perm (h ++ t) := by
+  rw [List.append_assoc]
+  exact ((List.perm_append_comm (l₁ := t) (l₂ := E)).append_left h').trans
+    (by rw [← List.append_assoc]; exact hp.append_right t)
+
+theorem perm_tail {β : Type} {t' t E : List β} (h : List β) (hp : (t' ++ E).Perm t) :
+    (h ++ t' ++ E).Perm (h ++ t) := by
+  rw [List.append_assoc]; exact hp.append_left h
+
+theorem perm_mid {β : Type} {m' m E : List β} (A B : List β) (hp : (m' ++ E).Perm m) :
+    (A ++ m' ++ B ++ E).Perm (A ++ m ++ B) := by
+  rw [List.append_assoc A m' B, List.append_assoc A m B, List.append_assoc A]
+  exact (perm_head B hp).append_left A
+
+/-! ## one more cached node -/
+
+/-- at `x` the traversal with cache `C'` returns the value of the traversal with cache `C` and
+performs its events except `E` -/
+def RelAt (c : VCtx α) (C' C : List (Path × α)) (E : List (Ev α)) (x : VItem α) : Prop :=
+  (pvI c C' x).1 = (pvI c C x).1 ∧ ((pvI c C' x).2 ++ E).Perm (pvI c C x).2
+
+theorem pvNth_eq (c : VCtx α) (C : List (Path × α)) : ∀ (ks : List (Node α)) (k : Nat) (path : Path)
+    (pc p1 p2 : α), pvNth c C ks k path pc p1 p2 =
+      match ks[k]? with
+      | some n => pv c C n path pc p1 p2
+      | none => (0, [])
+  | [], _, _, _, _, _ => by simp [pvNth]
+  | k :: _, 0, path, pc, p1, p2 => by simp [pvNth]
+  | _ :: ks, n + 1, path, pc, p1, p2 => by simp [pvNth, pvNth_eq c C ks n]
+
+theorem not_prefix_of_ne {path q : Path} {a b : Nat} (hab : a ≠ b) (hq : path ++ [a] <+: q) :
+    ¬ path ++ [b] <+: q := fun h => hab (snoc_prefix_inj hq h)
+
+theorem pvChance_step (c : VCtx α) (C' C : List (Path × α)) (E : List (Ev α)) (y : VItem α)
+    (hag : ∀ q, ¬ y.path <+: q → cacheGet C' q = cacheGet C q) (hy : RelAt c C' C E y) :
+    ∀ (ps : List α) (ks : List (Node α)) (j : Nat) (path : Path) (a0 b : Nat) (pc p1 p2 acc p : α)
+      (n : Node α), ps[j]? = some p → ks[j]? = some n → b = a0 + j →
+      y = ⟨path ++ [b], n, pc * p, p1, p2⟩ →
+      (pvChance c C' ps ks path a0 pc p1 p2 acc).1 = (pvChance c C ps ks path a0 pc p1 p2 acc).1 ∧
+      ((pvChance c C' ps ks path a0 pc p1 p2 acc).2 ++ E).Perm
+        (pvChance c C ps ks path a0 pc p1 p2 acc).2
+  | [], _, j, _, _, _, _, _, _, _, _, _, h, _, _, _ => by simp at h
+  | _ :: _, [], j, _, _, _, _, _, _, _, _, _, _, h, _, _ => by simp at h
+  | p0 :: ps, k0 :: ks, 0, path, a0, b, pc, p1, p2, acc, p, n, hp, hn, hb, hyv => by
+    simp only [List.getElem?_cons_zero, Option.some.injEq] at hp hn
+    subst hp hn
+    have hb' : b = a0 := by omega
+    subst hb' hyv
+    simp only [pvChance]
+    obtain ⟨h1, h2⟩ := hy
+    simp only [pvI] at h1 h2
+    have hirr : ∀ acc', pvChance c C' ps ks path (b + 1) pc p1 p2 acc'
+        = pvChance c C ps ks path (b + 1) pc p1 p2 acc' := fun acc' =>
+      pvChance_irr c C' C ps ks path (b + 1) pc p1 p2 acc'
+        (fun b' hb' q hq => hag q (not_prefix_of_ne (by omega) hq))
+    rw [h1, hirr]
+    exact ⟨rfl, perm_head _ h2⟩
+  | p0 :: ps, k0 :: ks, j + 1, path, a0, b, pc, p1, p2, acc, p, n, hp, hn, hb, hyv => by
+    simp only [List.getElem?_cons_succ] at hp hn
+    simp only [pvChance]
+    have hirr : pv c C' k0 (path ++ [a0]) (pc * p0) p1 p2 = pv c C k0 (path ++ [a0]) (pc * p0) p1 p2 :=
+      pv_irr c C' C k0 (path ++ [a0]) (pc * p0) p1 p2
+        (fun q hq => hag q (by rw [hyv]; exact not_prefix_of_ne (by omega) hq))
+    rw [hirr]
+    obtain ⟨h1, h2⟩ := pvChance_step c C' C E y hag hy ps ks j path (a0 + 1) b pc p1 p2
+      (acc + p0 * (pv c C k0 (path ++ [a0]) (pc * p0) p1 p2).1) p n hp hn (by omega) hyv
+    exact ⟨h1, perm_tail _ h2⟩
+
+theorem pvActs_step (c : VCtx α) (C' C : List (Path × α)) (E : List (Ev α)) (y : VItem α)
+    (hag : ∀ q, ¬ y.path <+: q → cacheGet C' q = cacheGet C q) (hy : RelAt c C' C E y)
+    (one : Bool) (i : Nat) (mult : α) :
+    ∀ (σ : List α) (ks : List (Node α)) (j : Nat) (path : Path) (a0 b : Nat) (pc p1 p2 eo ex s : α)
+      (n : Node α), σ[j]? = some s → ks[j]? = some n → b = a0 + j →
+      y = (if one then ⟨path ++ [b], n, pc, p1 * s, p2⟩ else ⟨path ++ [b], n, pc, p1, p2 * s⟩) →
+      (pvActs c C' one i mult σ ks path pc p1 p2 a0 eo ex).1
+        = (pvActs c C one i mult σ ks path pc p1 p2 a0 eo ex).1 ∧
+      (pvActs c C' one i mult σ ks path pc p1 p2 a0 eo ex).2.1
+        = (pvActs c C one i mult σ ks path pc p1 p2 a0 eo ex).2.1 ∧
+      ((pvActs c C' one i mult σ ks path pc p1 p2 a0 eo ex).2.2 ++ E).Perm
+        (pvActs c C one i mult σ ks path pc p1 p2 a0 eo ex).2.2
+  | [], _, j, _, _, _, _, _, _, _, _, _, _, h, _, _, _ => by simp at h
+  | _ :: _, [], j, _, _, _, _, _, _, _, _, _, _, _, h, _, _ => by simp at h
+  | s0 :: σ, k0 :: ks, 0, path, a0, b, pc, p1, p2, eo, ex, s, n, hp, hn, hb, hyv => by
+    simp only [List.getElem?_cons_zero, Option.some.injEq] at hp hn
+    subst hp hn
+    have hb' : b = a0 := by omega
+    subst hb'
+    have hirr : ∀ eo' ex', pvActs c C' one i mult σ ks path pc p1 p2 (b + 1) eo' ex'
+        = pvActs c C one i mult σ ks path pc p1 p2 (b + 1) eo' ex' := fun eo' ex' =>
+      pvActs_irr c C' C one i mult σ ks path pc p1 p2 (b + 1) eo' ex'
+        (fun b' hb' q hq => hag q (by
+          rw [hyv]; cases one <;> exact not_prefix_of_ne (by omega) hq))
+    obtain ⟨h1, h2⟩ := hy
+    simp only [pvActs]
+    cases one
+    · simp only [Bool.false_eq_true, if_false] at hyv ⊢
+      subst hyv
+      simp only [pvI] at h1 h2
+      rw [h1, hirr]
+      exact ⟨rfl, rfl, perm_head _ h2⟩
+    · simp only [if_true] at hyv ⊢
+      subst hyv
+      simp only [pvI] at h1 h2
+      rw [h1, hirr]
+      exact ⟨rfl, rfl, perm_head _ h2⟩
+  | s0 :: σ, k0 :: ks, j + 1, path, a0, b, pc, p1, p2, eo, ex, s, n, hp, hn, hb, hyv => by
+    simp only [List.getElem?_cons_succ] at hp hn
+    have hyp : y.path = path ++ [b] := by rw [hyv]; cases one <;> rfl
+    have hirr : ∀ q1 q2, pv c C' k0 (path ++ [a0]) pc q1 q2 = pv c C k0 (path ++ [a0]) pc q1 q2 :=
+      fun q1 q2 => pv_irr c C' C k0 (path ++ [a0]) pc q1 q2
+        (fun q hq => hag q (by rw [hyp]; exact not_prefix_of_ne (by omega) hq))
+    simp only [pvActs]
+    rw [hirr, hirr]
+    obtain ⟨h1, h2, h3⟩ := pvActs_step c C' C E y hag hy one i mult σ ks j path (a0 + 1) b pc p1 p2
+      (eo + s0 * (if one then pv c C k0 (path ++ [a0]) pc (p1 * s0) p2
+        else pv c C k0 (path ++ [a0]) pc p1 (p2 * s0)).1)
+      (ex + (if one then pv c C k0 (path ++ [a0]) pc (p1 * s0) p2
+        else pv c C k0 (path ++ [a0]) pc p1 (p2 * s0)).1 * mult * s0) s n hp hn (by omega) hyv
+    refine ⟨h1, h2, ?_⟩
+    rw [List.append_assoc]
+    exact (List.Perm.cons _ h3).append_left _
+
+
+/-- one step up: if the relation holds at a child `y` of `x`, the caches agree away from `y`
+and neither has an entry at `x`, it holds at `x` -/
+theorem relAt_step (c : VCtx α) (C' C : List (Path × α)) (E : List (Ev α)) (x y : VItem α) (a : Nat)
+    (hv : vstep c x a = some y) (hx : cacheGet C x.path = none) (hx' : cacheGet C' x.path = none)
+    (hag : ∀ q, ¬ y.path <+: q → cacheGet C' q = cacheGet C q) (hy : RelAt c C' C E y) :
+    RelAt c C' C E x := by
+  obtain ⟨xp, xn, xpc, x1, x2⟩ := x
+  simp only at hx hx'
+  cases xn with
+  | term p => simp [vstep] at hv
+  | chance i ks =>
+    simp only [vstep] at hv
+    cases hs : c.sampled with
+    | true =>
+      simp only [hs, if_true] at hv
+      split_ifs at hv with hak
+      · subst hak
+        simp only [Option.map_eq_some_iff] at hv
+        obtain ⟨n, hn, hv⟩ := hv
+        subst hv
+        unfold RelAt pvI
+        simp only
+        rw [pv_chance_s c C _ _ _ _ _ _ hx hs, pv_chance_s c C' _ _ _ _ _ _ hx' hs,
+          pvNth_eq, pvNth_eq, hn]
+        obtain ⟨h1, h2⟩ := hy
+        exact ⟨h1, List.Perm.cons _ h2⟩
+    | false =>
+      simp only [hs, Bool.false_eq_true, if_false] at hv
+      split at hv
+      · rename_i p n hp hn
+        simp only [Option.some.injEq] at hv
+        unfold RelAt pvI
+        simp only
+        rw [pv_chance_f c C _ _ _ _ _ _ hx hs, pv_chance_f c C' _ _ _ _ _ _ hx' hs]
+        exact pvChance_step c C' C E y hag hy _ ks a xp 0 a xpc x1 x2 0 p n hp hn (by omega) hv.symm
+      · simp at hv
+  | player one i ks =>
+    simp only [vstep] at hv
+    split at hv
+    · rename_i s n hs hn
+      simp only [Option.some.injEq] at hv
+      unfold RelAt pvI
+      simp only
+      rw [pv_player c C _ _ _ _ _ _ _ hx, pv_player c C' _ _ _ _ _ _ _ hx']
+      obtain ⟨h1, h2, h3⟩ := pvActs_step c C' C E y hag hy one i
+        (if one then xpc * x2 else -x1 * xpc) _ ks a xp 0 a xpc x1 x2 0 0 s n hs hn (by omega) hv.symm
+      simp only
+      rw [h1, h2]
+      exact ⟨rfl, perm_mid _ _ h3⟩
+    · simp at hv
+
+/-- caching one more node `x0` (with the value of its plain traversal) that is incomparable with
+all cached paths: at every ancestor `x` the value is unchanged and exactly the events of `x0`'s
+plain traversal disappear -/
+theorem relAt_desc (c : VCtx α) (C : List (Path × α)) (x0 : VItem α)
+    (hinc : ∀ e ∈ C, ¬ e.1 <+: x0.path ∧ ¬ x0.path <+: e.1) :
+    ∀ (r : List Nat) (x : VItem α), vdesc c x r = some x0 →
+      RelAt c ((x0.path, (pvI c [] x0).1) :: C) C (pvI c [] x0).2 x
+  | [], x, h => by
+    simp only [vdesc, Option.some.injEq] at h
+    subst h
+    have h1 : pvI c ((x.path, (pvI c [] x).1) :: C) x = ((pvI c [] x).1, []) := by
+      unfold pvI
+      exact pv_hit c _ _ _ _ _ _ _ (by rw [cacheGet_cons, if_pos rfl])
+    have h2 : pvI c C x = pvI c [] x := by
+      unfold pvI
+      apply pv_irr
+      intro q hq
+      rw [cacheGet_nil]
+      exact cacheGet_eq_none (fun e he heq => (hinc e he).2 (heq ▸ hq))
+    unfold RelAt
+    rw [h1, h2]
+    exact ⟨rfl, by simp⟩
+  | a :: r, x, h => by
+    simp only [vdesc] at h
+    cases hs : vstep c x a with
+    | none => simp [hs] at h
+    | some y =>
+      simp only [hs, Option.bind_some] at h
+      have hyp := vstep_path hs
+      have h0p := vdesc_path r h
+      have hpre : x.path <+: x0.path := by
+        rw [h0p, hyp, List.append_assoc]; exact List.prefix_append _ _
+      have hne : x0.path ≠ x.path := by
+        intro heq
+        have := congrArg List.length heq
+        rw [h0p, hyp] at this
+        simp at this
+      have hx : cacheGet C x.path = none :=
+        cacheGet_eq_none (fun e he heq => (hinc e he).1 (heq ▸ hpre))
+      have hx' : cacheGet ((x0.path, (pvI c [] x0).1) :: C) x.path = none := by
+        rw [cacheGet_cons, if_neg hne]; exact hx
+      refine relAt_step c _ C _ x y a hs hx hx' ?_ (relAt_desc c C x0 hinc r y h)
+      intro q hq
+      rw [cacheGet_cons, if_neg]
+      intro heq
+      apply hq
+      rw [← heq, h0p]
+      exact List.prefix_append _ _
+
+
+/-! ## cuts -/
+
+def Incomp (x y : VItem α) : Prop := ¬ x.path <+: y.path ∧ ¬ y.path <+: x.path
+
+theorem Incomp.symm {x y : VItem α} (h : Incomp x y) : Incomp y x := ⟨h.2, h.1⟩
+
+/-- every item is the position the plain traversal reaches along its path (with the reach
+triple), and no item is below another -/
+def CutInv (c : VCtx α) (r0 : VItem α) (S : List (VItem α)) : Prop :=
+  (∀ x ∈ S, vdesc c r0 x.path = some x) ∧ S.Pairwise Incomp
+
+theorem CutInv.perm {c : VCtx α} {r0 : VItem α} {S S' : List (VItem α)} (h : CutInv c r0 S)
+    (hp : S.Perm S') : CutInv c r0 S' :=
+  ⟨fun x hx => h.1 x (hp.symm.subset hx), (hp.pairwise_iff Incomp.symm).1 h.2⟩
+
+theorem CutInv.sublist {c : VCtx α} {r0 : VItem α} {S S' : List (VItem α)} (h : CutInv c r0 S)
+    (hs : S'.Sublist S) : CutInv c r0 S' :=
+  ⟨fun x hx => h.1 x (hs.subset hx), h.2.sublist hs⟩
+
+def cacheOf (c : VCtx α) (Q : List (VItem α)) : List (Path × α) :=
+  Q.map (fun x => (x.path, (pvI c [] x).1))
+
+def taskEvs (c : VCtx α) (Q : List (VItem α)) : List (Ev α) :=
+  Q.flatMap (fun x => (pvI c [] x).2)
+
+/-- **decomposition**: the tasks on a cut and the cached traversal from the root together perform
+the events of the plain traversal, and the cached traversal returns its value -/
+theorem cut_decomp (c : VCtx α) (r0 : VItem α) :
+    ∀ (Q : List (VItem α)), CutInv c r0 Q →
+      (pvI c (cacheOf c Q) r0).1 = (pvI c [] r0).1 ∧
+      (taskEvs c Q ++ (pvI c (cacheOf c Q) r0).2).Perm (pvI c [] r0).2
+  | [], _ => by simp [cacheOf, taskEvs]
+  | x :: Q, h => by
+    have hQ : CutInv c r0 Q := h.sublist (List.sublist_cons_self x Q)
+    obtain ⟨ih1, ih2⟩ := cut_decomp c r0 Q hQ
+    have hinc : ∀ e ∈ cacheOf c Q, ¬ e.1 <+: x.path ∧ ¬ x.path <+: e.1 := by
+      intro e he
+      obtain ⟨y, hy, rfl⟩ := List.mem_map.mp he
+      exact ((List.pairwise_cons.mp h.2).1 y hy).symm
+    have hd : vdesc c r0 x.path = some x := h.1 x List.mem_cons_self
+    obtain ⟨h1, h2⟩ := relAt_desc c (cacheOf c Q) x hinc x.path r0 hd
+    have hc : cacheOf c (x :: Q) = (x.path, (pvI c [] x).1) :: cacheOf c Q := rfl
+    have ht : taskEvs c (x :: Q) = (pvI c [] x).2 ++ taskEvs c Q := by simp [taskEvs]
+    rw [hc, ht]
+    refine ⟨h1.trans ih1, ?_⟩
+    refine List.Perm.trans ?_ ih2
+    rw [List.append_assoc]
+    refine List.perm_append_comm.trans ?_
+    rw [List.append_assoc]
+    exact h2.append_left _
+
+/-- the events of the subtree at a reachable position are events of the whole traversal -/
+theorem evs_sub (c : VCtx α) (r0 x : VItem α) (hd : vdesc c r0 x.path = some x) :
+    ∀ e ∈ (pvI c [] x).2, e ∈ (pvI c [] r0).2 := by
+  obtain ⟨-, h2⟩ := relAt_desc c [] x (fun e he => absurd he List.not_mem_nil) x.path r0 hd
+  intro e he
+  exact h2.subset (List.mem_append_right _ he)
+
+/-! ## the children pushed by the frontier loop -/
+
+theorem chanceItems_spec (path : Path) (pc p1 p2 : α) : ∀ (ps : List α) (ks : List (Node α)) (a0 : Nat),
+    (∀ y ∈ chanceItems path pc p1 p2 ps ks a0, ∃ j p n, ps[j]? = some p ∧ ks[j]? = some n ∧
+      y = ⟨path ++ [a0 + j], n, pc * p, p1, p2⟩) ∧
+    (chanceItems path pc p1 p2 ps ks a0).Pairwise (fun y z => y.path ≠ z.path)
+  | [], _, _ => by simp [chanceItems]
+  | _ :: _, [], _ => by simp [chanceItems]
+  | p :: ps, k :: ks, a0 => by
+    obtain ⟨ih1, ih2⟩ := chanceItems_spec path pc p1 p2 ps ks (a0 + 1)
+    simp only [chanceItems]
+    constructor
+    · intro y hy
+      rcases List.mem_cons.mp hy with rfl | hy
+      · exact ⟨0, p, k, rfl, rfl, rfl⟩
+      · obtain ⟨j, p', n, h1, h2, h3⟩ := ih1 y hy
+        exact ⟨j + 1, p', n, h1, h2, by rw [h3, show a0 + 1 + j = a0 + (j + 1) by omega]⟩
+    · refine List.pairwise_cons.mpr ⟨?_, ih2⟩
+      intro y hy
+      obtain ⟨j, p', n, -, -, h3⟩ := ih1 y hy
+      rw [h3]
+      simp
+      omega
+
+theorem childItems_spec (one : Bool) (path : Path) (pc p1 p2 : α) :
+    ∀ (σ : List α) (ks : List (Node α)) (a0 : Nat),
+    (∀ y ∈ childItems one path pc p1 p2 σ ks a0, ∃ j s n, σ[j]? = some s ∧ ks[j]? = some n ∧
+      y = (if one then ⟨path ++ [a0 + j], n, pc, p1 * s, p2⟩
+        else ⟨path ++ [a0 + j], n, pc, p1, p2 * s⟩)) ∧
+    (childItems one path pc p1 p2 σ ks a0).Pairwise (fun y z => y.path ≠ z.path)
+  | [], _, _ => by simp [childItems]
+  | _ :: _, [], _ => by simp [childItems]
+  | s :: σ, k :: ks, a0 => by
+    obtain ⟨ih1, ih2⟩ := childItems_spec one path pc p1 p2 σ ks (a0 + 1)
+    simp only [childItems]
+    constructor
+    · intro y hy
+      rcases List.mem_cons.mp hy with rfl | hy
+      · exact ⟨0, s, k, rfl, rfl, rfl⟩
+      · obtain ⟨j, s', n, h1, h2, h3⟩ := ih1 y hy
+        exact ⟨j + 1, s', n, h1, h2, by rw [h3, show a0 + 1 + j = a0 + (j + 1) by omega]⟩
+    · refine List.pairwise_cons.mpr ⟨?_, ih2⟩
+      intro y hy
+      obtain ⟨j, s', n, -, -, h3⟩ := ih1 y hy
+      rw [h3]
+      cases one <;> simp <;> omega
+
+/-- replacing an item of a cut by (some of) its children gives a cut -/
+theorem CutInv.replace {c : VCtx α} {r0 it : VItem α} {R ch : List (VItem α)}
+    (h : CutInv c r0 (it :: R)) (hch : ∀ y ∈ ch, ∃ a, vstep c it a = some y)
+    (hne : ch.Pairwise (fun y z => y.path ≠ z.path)) : CutInv c r0 (ch ++ R) := by
+  have hR : CutInv c r0 R := h.sublist (List.sublist_cons_self it R)
+  have hit : vdesc c r0 it.path = some it := h.1 it List.mem_cons_self
+  have hiR := (List.pairwise_cons.mp h.2).1
+  constructor
+  · intro x hx
+    rcases List.mem_append.mp hx with hx | hx
+    · obtain ⟨a, ha⟩ := hch x hx
+      rw [vstep_path ha]
+      exact vdesc_snoc c it.path a r0 it x hit ha
+    · exact hR.1 x hx
+  · rw [List.pairwise_append]
+    refine ⟨?_, hR.2, ?_⟩
+    · refine hne.imp_of_mem ?_
+      intro y z hy hz hyz
+      obtain ⟨a, ha⟩ := hch y hy
+      obtain ⟨b, hb⟩ := hch z hz
+      have hly : y.path.length = z.path.length := by
+        rw [vstep_path ha, vstep_path hb]; simp
+      exact ⟨fun hp => hyz (hp.eq_of_length hly), fun hp => hyz (hp.eq_of_length hly.symm).symm⟩
+    · intro y hy z hz
+      obtain ⟨a, ha⟩ := hch y hy
+      have hyp := vstep_path ha
+      obtain ⟨i1, i2⟩ := hiR z hz
+      constructor
+      · intro hp
+        rw [hyp] at hp
+        exact i1 (prefix_of_snoc_prefix hp)
+      · intro hp
+        rw [hyp, List.prefix_concat_iff] at hp
+        rcases hp with hp | hp
+        · exact i1 (hp ▸ List.prefix_append _ _)
+        · exact i2 hp
+
+
+/-! ## the draw log is determined by the set of sampled infosets -/
+
+def keys (d : DrawSt α) : List Nat := d.chance.map Prod.fst
+
+/-- the log record of a fresh draw at chance infoset `i` -/
+def drec (c : VCtx α) (i : Nat) : DrawRec α := ⟨0, i, c.pass, c.ch.getD i [], kdraw c i⟩
+
+/-- cached samples are the oracle's, every infoset is cached once, and the log is the initial
+log plus one record per cached infoset (newest first) -/
+def Good (c : VCtx α) (log0 : List (DrawRec α)) (d : DrawSt α) : Prop :=
+  Cons c d ∧ (keys d).Nodup ∧ d.log = (keys d).map (drec c) ++ log0
+
+theorem assocGet_eq_none_iff (l : List (Nat × Nat)) (i : Nat) :
+    assocGet l i = none ↔ i ∉ l.map Prod.fst := by
+  unfold assocGet
+  simp only [Option.map_eq_none_iff, List.find?_eq_none, List.mem_map, not_exists, not_and]
+  constructor
+  · intro h e he hei
+    have := h e he
+    simp [hei] at this
+  · intro h e he
+    simpa using h e he
+
+theorem Good.init (c : VCtx α) (log0 : List (DrawRec α)) : Good c log0 { log := log0 } :=
+  ⟨fun i k h => by simp [assocGet] at h, by simp [keys], by simp [keys]⟩
+
+theorem Good.drawOne {c : VCtx α} {log0 : List (DrawRec α)} {d : DrawSt α} (h : Good c log0 d)
+    (i : Nat) : Good c log0 (drawOne c i d) ∧ ∀ j, j ∈ keys (drawOne c i d) ↔ j = i ∨ j ∈ keys d := by
+  obtain ⟨h1, h2, h3⟩ := h
+  refine ⟨⟨h1.drawOne i, ?_⟩, ?_⟩
+  · unfold Cfr.Van.drawOne
+    cases hg : assocGet d.chance i with
+    | some k => simp only [sampleChance, hg]; exact ⟨h2, h3⟩
+    | none =>
+      simp only [sampleChance, hg]
+      have hni := (assocGet_eq_none_iff _ _).1 hg
+      refine ⟨?_, ?_⟩
+      · simp only [keys, List.map_cons]
+        exact List.nodup_cons.mpr ⟨hni, h2⟩
+      · simp only [keys, List.map_cons, List.cons_append, h3]
+        rfl
+  · unfold Cfr.Van.drawOne
+    cases hg : assocGet d.chance i with
+    | some k =>
+      simp only [sampleChance, hg]
+      have hi : i ∈ keys d := by
+        by_contra hni
+        rw [(assocGet_eq_none_iff _ _).2 hni] at hg
+        exact absurd hg (by simp)
+      intro j
+      constructor
+      · exact Or.inr
+      · rintro (rfl | hj)
+        · exact hi
+        · exact hj
+    | none =>
+      simp only [sampleChance, hg]
+      intro j
+      simp [keys]
+
+theorem Good.drawAll {c : VCtx α} {log0 : List (DrawRec α)} : ∀ (ids : List Nat) {d : DrawSt α},
+    Good c log0 d →
+      Good c log0 (drawAll c ids d) ∧ ∀ j, j ∈ keys (drawAll c ids d) ↔ j ∈ keys d ∨ j ∈ ids
+  | [], d, h => ⟨h, fun j => by simp⟩
+  | i :: ids, d, h => by
+    obtain ⟨g1, k1⟩ := h.drawOne i
+    obtain ⟨g2, k2⟩ := Good.drawAll ids g1
+    refine ⟨g2, fun j => ?_⟩
+    rw [drawAll_cons, k2, k1, List.mem_cons]
+    tauto
+
+/-- two good draw states with the same set of sampled infosets have the same log up to order -/
+theorem Good.log_perm {c : VCtx α} {log0 log0' : List (DrawRec α)} {d d' : DrawSt α}
+    (h : Good c log0 d) (h' : Good c log0' d') (hk : ∀ j, j ∈ keys d ↔ j ∈ keys d')
+    (hl : log0.Perm log0') : d.log.Perm d'.log := by
+  rw [h.2.2, h'.2.2]
+  exact (((List.perm_ext_iff_of_nodup h.2.1 h'.2.1).2 hk).map _).append hl
+
+/-! ## the frontier loop keeps a cut -/
+
+/-- what the frontier loop maintains about the draw state -/
+def DInv (c : VCtx α) (r0 : VItem α) (log0 : List (DrawRec α)) (dinit d : DrawSt α) : Prop :=
+  Good c log0 d ∧ (∀ j ∈ keys d, Sum.inr j ∈ (pvI c [] r0).2) ∧ (c.sampled = false → d = dinit)
+
+theorem vThreshold_inv (c : VCtx α) (r0 : VItem α) (target : Nat) (log0 : List (DrawRec α))
+    (dinit : DrawSt α) : ∀ (fuel : Nat) (queue work : List (VItem α)) (d : DrawSt α),
+    CutInv c r0 (queue ++ work) → DInv c r0 log0 dinit d →
+      CutInv c r0 ((vThreshold c target fuel queue work d).1
+        ++ (vThreshold c target fuel queue work d).2.1) ∧
+      DInv c r0 log0 dinit (vThreshold c target fuel queue work d).2.2
+  | 0, queue, work, d, hc, hd => by simp only [vThreshold]; exact ⟨hc, hd⟩
+  | fuel + 1, queue, work, d, hc, hd => by
+    rw [vThreshold]
+    by_cases hcond : (!(queue.isEmpty && work.isEmpty) &&
+        decide (queue.length + work.length < target)) = true
+    · rw [if_pos hcond]
+      cases hl : queue.getLast? with
+      | none =>
+        simp only
+        exact vThreshold_inv c r0 target log0 dinit fuel work queue d
+          (hc.perm List.perm_append_comm) hd
+      | some it =>
+        simp only
+        have hq : queue.dropLast ++ [it] = queue := List.dropLast_append_getLast? it hl
+        have hqw : queue ++ work = queue.dropLast ++ it :: work := by
+          conv_lhs => rw [← hq]
+          simp
+        have hc' : CutInv c r0 (it :: (queue.dropLast ++ work)) := by
+          rw [hqw] at hc; exact hc.perm List.perm_middle
+        have hcs : CutInv c r0 (queue.dropLast ++ work) := hc'.sublist (List.sublist_cons_self _ _)
+        have hit : vdesc c r0 it.path = some it := hc'.1 it List.mem_cons_self
+        have hrep : ∀ ch : List (VItem α), (∀ y ∈ ch, ∃ a, vstep c it a = some y) →
+            ch.Pairwise (fun y z => y.path ≠ z.path) →
+            CutInv c r0 (queue.dropLast ++ (work ++ ch)) := by
+          intro ch h1 h2
+          rw [← List.append_assoc]
+          exact (hc'.replace h1 h2).perm List.perm_append_comm
+        cases hn : it.node with
+        | term p =>
+          simp only
+          exact vThreshold_inv c r0 target log0 dinit fuel _ work d hcs hd
+        | chance i ks =>
+          simp only
+          cases hs : c.sampled with
+          | true =>
+            simp only [if_true, sampleChance_cons c i d hd.1.1]
+            obtain ⟨g1, k1⟩ := hd.1.drawOne i
+            have hi : Sum.inr i ∈ (pvI c [] r0).2 := by
+              apply evs_sub c r0 it hit
+              unfold pvI
+              rw [hn, pv_chance_s c [] _ _ _ _ _ _ (cacheGet_nil _) hs]
+              exact List.mem_cons_self
+            have hd' : DInv c r0 log0 dinit (drawOne c i d) := by
+              refine ⟨g1, ?_, fun hf => absurd (hs.symm.trans hf) (by decide)⟩
+              intro j hj
+              rcases (k1 j).1 hj with rfl | hj
+              · exact hi
+              · exact hd.2.1 j hj
+            cases hk : ks[kdraw c i]? with
+            | some n =>
+              simp only
+              refine vThreshold_inv c r0 target log0 dinit fuel _ _ _ (hrep _ ?_ ?_) hd'
+              · intro y hy
+                rw [List.mem_singleton] at hy
+                refine ⟨kdraw c i, ?_⟩
+                rw [hy, mul_one]
+                simp [vstep, hn, hs, hk]
+              · simp
+            | none =>
+              simp only
+              exact vThreshold_inv c r0 target log0 dinit fuel _ work _ hcs hd'
+          | false =>
+            simp only [Bool.false_eq_true, if_false]
+            obtain ⟨s1, s2⟩ := chanceItems_spec it.path it.pc it.p1 it.p2 (c.ch.getD i []) ks 0
+            refine vThreshold_inv c r0 target log0 dinit fuel _ _ d (hrep _ ?_ s2) hd
+            intro y hy
+            obtain ⟨j, p, n, hp, hn', rfl⟩ := s1 y hy
+            refine ⟨j, ?_⟩
+            simp only [vstep, hn, hs, Bool.false_eq_true, if_false, Nat.zero_add, hp, hn']
+        | player one i ks =>
+          simp only
+          obtain ⟨s1, s2⟩ := childItems_spec one it.path it.pc it.p1 it.p2 (c.strat one i) ks 0
+          refine vThreshold_inv c r0 target log0 dinit fuel _ _ d (hrep _ ?_ s2) hd
+          intro y hy
+          obtain ⟨j, s, n, hp, hn', rfl⟩ := s1 y hy
+          refine ⟨j, ?_⟩
+          simp [vstep, hn, hp, hn']
+    · rw [if_neg hcond]; exact ⟨hc, hd⟩
+
+
+/-! ## the unsampled traversal visits no sampled infoset -/
+
+mutual
+theorem pv_ids_full (c : VCtx α) (C : List (Path × α)) (hs : c.sampled = false) :
+    ∀ (n : Node α) (path : Path) (pc p1 p2 : α), idsOf (pv c C n path pc p1 p2).2 = []
+  | .term p, path, pc, p1, p2 => by
+    cases hc : cacheGet C path with
+    | some v => rw [pv_hit c C _ _ _ _ _ v hc]; rfl
+    | none => rw [pv_term c C _ _ _ _ _ hc]; rfl
+  | .chance i ks, path, pc, p1, p2 => by
+    cases hc : cacheGet C path with
+    | some v => rw [pv_hit c C _ _ _ _ _ v hc]; rfl
+    | none =>
+      rw [pv_chance_f c C _ _ _ _ _ _ hc hs]
+      exact pvChance_ids_full c C hs _ ks path 0 pc p1 p2 0
+  | .player one i ks, path, pc, p1, p2 => by
+    cases hc : cacheGet C path with
+    | some v => rw [pv_hit c C _ _ _ _ _ v hc]; rfl
+    | none =>
+      rw [pv_player c C _ _ _ _ _ _ _ hc]
+      simp [pvActs_ids_full c C hs one i _ _ ks path pc p1 p2 0 0 0]
+theorem pvChance_ids_full (c : VCtx α) (C : List (Path × α)) (hs : c.sampled = false) :
+    ∀ (ps : List α) (ks : List (Node α)) (path : Path) (a : Nat) (pc p1 p2 acc : α),
+      idsOf (pvChance c C ps ks path a pc p1 p2 acc).2 = []
+  | p :: ps, k :: ks, path, a, pc, p1, p2, acc => by
+    simp only [pvChance, idsOf_append, pv_ids_full c C hs k, pvChance_ids_full c C hs ps ks,
+      List.append_nil]
+  | [], _, _, _, _, _, _, _ => by simp [pvChance]
+  | _ :: _, [], _, _, _, _, _, _ => by simp [pvChance]
+theorem pvActs_ids_full (c : VCtx α) (C : List (Path × α)) (hs : c.sampled = false) (one : Bool)
+    (i : Nat) (mult : α) :
+    ∀ (σ : List α) (ks : List (Node α)) (path : Path) (pc p1 p2 : α) (a : Nat) (eo ex : α),
+      idsOf (pvActs c C one i mult σ ks path pc p1 p2 a eo ex).2.2 = []
+  | s :: σ, k :: ks, path, pc, p1, p2, a, eo, ex => by
+    simp only [pvActs, idsOf_append, idsOf_inl, pvActs_ids_full c C hs one i mult σ ks,
+      List.append_nil]
+    cases one <;> simp [pv_ids_full c C hs k]
+  | [], _, _, _, _, _, _, _, _ => by simp [pvActs]
+  | _ :: _, [], _, _, _, _, _, _, _ => by simp [pvActs]
+end
+
+theorem taskEvs_ids_full (c : VCtx α) (hs : c.sampled = false) (Q : List (VItem α)) :
+    idsOf (taskEvs c Q) = [] := by
+  induction Q with
+  | nil => rfl
+  | cons x Q ih =>
+    have ht : taskEvs c (x :: Q) = (pvI c [] x).2 ++ taskEvs c Q := by simp [taskEvs]
+    rw [ht, idsOf_append, ih]
+    unfold pvI
+    rw [pv_ids_full c [] hs]; rfl
+
+/-! ## the three phases of a multi-threaded iteration -/
+
+theorem vrec_pv (c : VCtx α) (x : VItem α) (d : DrawSt α) (hd : Cons c d) :
+    vrec c x.node x.pc x.p1 x.p2 d =
+      ((pvI c [] x).1, effsOf (pvI c [] x).2, drawAll c (idsOf (pvI c [] x).2) d) := by
+  rw [← vrecC_nil c x.node x.path]
+  exact vrecC_pv c [] x.node x.path x.pc x.p1 x.p2 d hd
+
+theorem vRunTasks_spec (c : VCtx α) : ∀ (Q : List (VItem α)) (d : DrawSt α), Cons c d →
+    vRunTasks c Q d = (cacheOf c Q, effsOf (taskEvs c Q), drawAll c (idsOf (taskEvs c Q)) d)
+  | [], d, _ => by simp [vRunTasks, cacheOf, taskEvs]
+  | x :: Q, d, hd => by
+    simp only [vRunTasks]
+    rw [vrec_pv c x d hd]
+    simp only
+    rw [vRunTasks_spec c Q _ (hd.drawAll _)]
+    simp [cacheOf, taskEvs, drawAll_append]
+
+/-- the root position -/
+def rootItem (g : Game α) : VItem α := ⟨[], g.root, 1, 1, 1⟩
+
+/-- **one multi-threaded traversal phase**: its accumulations are a rearrangement of those of the
+plain traversal; its draw state is good, has sampled exactly the infosets the plain traversal
+samples, and is untouched when nothing is sampled -/
+theorem vanillaMultiEffects_spec (g : Game α) (c : VCtx α) (target : Nat) (log : List (DrawRec α)) :
+    ((vanillaMultiEffects g c target log).1).Perm (effsOf (pvI c [] (rootItem g)).2) ∧
+    Good c log (vanillaMultiEffects g c target log).2 ∧
+    (∀ j, j ∈ keys (vanillaMultiEffects g c target log).2 ↔ j ∈ idsOf (pvI c [] (rootItem g)).2) ∧
+    (c.sampled = false → (vanillaMultiEffects g c target log).2 = { log := log }) := by
+  have hc0 : CutInv c (rootItem g) ([rootItem g] ++ []) := by
+    refine ⟨?_, by simp⟩
+    intro x hx
+    simp only [List.append_nil, List.mem_singleton] at hx
+    subst hx
+    rfl
+  have hd0 : DInv c (rootItem g) log { log := log } { log := log } :=
+    ⟨Good.init c log, fun j hj => by simp [keys] at hj, fun _ => rfl⟩
+  obtain ⟨hc1, hg1, hk1, hf1⟩ := vThreshold_inv c (rootItem g) target log { log := log }
+    (2 * g.root.size + 2) [rootItem g] [] { log := log } hc0 hd0
+  have hQ : CutInv c (rootItem g)
+      (vThreshold c target (2 * g.root.size + 2) [rootItem g] [] { log := log }).1 :=
+    hc1.sublist (List.sublist_append_left _ _)
+  obtain ⟨dv, dp⟩ := cut_decomp c (rootItem g) _ hQ
+  have heq : vanillaMultiEffects g c target log =
+      (effsOf (taskEvs c (vThreshold c target (2 * g.root.size + 2) [rootItem g] [] { log := log }).1
+          ++ (pvI c (cacheOf c (vThreshold c target (2 * g.root.size + 2) [rootItem g] []
+            { log := log }).1) (rootItem g)).2),
+        drawAll c (idsOf (taskEvs c
+            (vThreshold c target (2 * g.root.size + 2) [rootItem g] [] { log := log }).1
+          ++ (pvI c (cacheOf c (vThreshold c target (2 * g.root.size + 2) [rootItem g] []
+            { log := log }).1) (rootItem g)).2))
+          (vThreshold c target (2 * g.root.size + 2) [rootItem g] [] { log := log }).2.2) := by
+    unfold vanillaMultiEffects
+    simp only
+    rw [show (⟨[], g.root, 1, 1, 1⟩ : VItem α) = rootItem g from rfl]
+    rw [vRunTasks_spec c _ _ hg1.1]
+    simp only
+    rw [vrecC_pv c _ g.root [] 1 1 1 _ (hg1.1.drawAll _)]
+    simp only [effsOf_append, idsOf_append, drawAll_append]
+    rfl
+  rw [heq]
+  obtain ⟨g2, k2⟩ := Good.drawAll (c := c) (idsOf (taskEvs c
+      (vThreshold c target (2 * g.root.size + 2) [rootItem g] [] { log := log }).1
+    ++ (pvI c (cacheOf c (vThreshold c target (2 * g.root.size + 2) [rootItem g] []
+      { log := log }).1) (rootItem g)).2)) hg1
+  refine ⟨effsOf_perm dp, g2, ?_, ?_⟩
+  · intro j
+    rw [k2, (idsOf_perm dp).mem_iff]
+    constructor
+    · rintro (h | h)
+      · exact mem_idsOf.2 (hk1 j h)
+      · exact h
+    · exact Or.inr
+  · intro hs
+    simp only
+    rw [idsOf_append, taskEvs_ids_full c hs]
+    unfold pvI
+    rw [pv_ids_full c _ hs, hf1 hs]
+    rfl
+
+
+/-! ## one iteration, the whole solve -/
+
+/-- one multi-threaded iteration against one single-threaded iteration started with a
+rearranged log: same state, same bounds, rearranged log (the same log when nothing is sampled) -/
+theorem vanillaMultiIterS_rel (sched : Sched α) (hs : sched.Fair) (g : Game α) (sampled : Bool)
+    (p : RegretParams α) (draw : DrawFn α) (target it : Nat) (s : SolveSt α)
+    (log log' : List (DrawRec α)) :
+    (vanillaMultiIterS sched g sampled p draw target it s log).1
+      = (vanillaIter g sampled p draw it s log').1 ∧
+    (vanillaMultiIterS sched g sampled p draw target it s log).2.1
+      = (vanillaIter g sampled p draw it s log').2.1 ∧
+    (vanillaMultiIterS sched g sampled p draw target it s log).2.2.1
+      = (vanillaIter g sampled p draw it s log').2.2.1 ∧
+    (log.Perm log' → (vanillaMultiIterS sched g sampled p draw target it s log).2.2.2.Perm
+      (vanillaIter g sampled p draw it s log').2.2.2) ∧
+    (sampled = false → log = log' → (vanillaMultiIterS sched g sampled p draw target it s log).2.2.2
+      = (vanillaIter g sampled p draw it s log').2.2.2) := by
+  obtain ⟨e1, e2, e3, e4⟩ :=
+    vanillaMultiEffects_spec g ⟨g.chance, sampled, s.strat, draw, it - 1⟩ target log
+  have hv := vrec_pv ⟨g.chance, sampled, s.strat, draw, it - 1⟩ (rootItem g) { log := log' }
+    (Good.init _ log').1
+  have hst : s.applyEffs (sched it
+      (vanillaMultiEffects g ⟨g.chance, sampled, s.strat, draw, it - 1⟩ target log).1)
+      = s.applyEffs (effsOf (pvI ⟨g.chance, sampled, s.strat, draw, it - 1⟩ [] (rootItem g)).2) :=
+    SolveSt.applyEffs_perm s ((hs it _).trans e1)
+  unfold vanillaMultiIterS vanillaIter
+  simp only
+  rw [show vrec ⟨g.chance, sampled, s.strat, draw, it - 1⟩ g.root 1 1 1 { log := log' }
+    = _ from hv, hst]
+  refine ⟨rfl, rfl, rfl, ?_, ?_⟩
+  · intro hl
+    simp only
+    obtain ⟨g2, k2⟩ := Good.drawAll (c := ⟨g.chance, sampled, s.strat, draw, it - 1⟩)
+      (idsOf (pvI ⟨g.chance, sampled, s.strat, draw, it - 1⟩ [] (rootItem g)).2) (Good.init _ log')
+    refine Good.log_perm e2 g2 ?_ hl
+    intro j
+    rw [e3, k2]
+    simp [keys]
+  · intro hf hl
+    subst hf hl
+    simp only
+    rw [e4 rfl]
+    unfold pvI
+    rw [pv_ids_full _ _ rfl]
+    rfl
+
+theorem solveLoop_succ' (step : IterFn α) (thr : Option (Ext α)) (n it : Nat) (s : SolveSt α)
+    (r1 r2 : Ext α) (log : List (DrawRec α)) :
+    solveLoop step thr (n + 1) it s r1 r2 log =
+      if belowThreshold (step it s log).2.1 (step it s log).2.2.1 thr = true then
+        ⟨.fin (step it s log).2.1, .fin (step it s log).2.2.1, (step it s log).1.avg true,
+          (step it s log).1.avg false, it, (step it s log).2.2.2⟩
+      else solveLoop step thr n (it + 1) (step it s log).1 (.fin (step it s log).2.1)
+        (.fin (step it s log).2.2.1) (step it s log).2.2.2 := by
+  rw [solveLoop]
+
+/-- two iteration functions that agree on state and bounds and keep logs rearrangements of each
+other give solves that agree -/
+theorem solveLoop_same (step step' : IterFn α) (thr : Option (Ext α))
+    (h : ∀ it s log log', log.Perm log' →
+      (step it s log).1 = (step' it s log').1 ∧ (step it s log).2.1 = (step' it s log').2.1 ∧
+      (step it s log).2.2.1 = (step' it s log').2.2.1 ∧
+      (step it s log).2.2.2.Perm (step' it s log').2.2.2) :
+    ∀ (n it : Nat) (s : SolveSt α) (r1 r2 : Ext α) (log log' : List (DrawRec α)), log.Perm log' →
+      (solveLoop step thr n it s r1 r2 log).Same (solveLoop step' thr n it s r1 r2 log')
+  | 0, it, s, r1, r2, log, log', hl => by
+    simp only [solveLoop]
+    exact ⟨rfl, rfl, rfl, rfl, rfl, hl⟩
+  | n + 1, it, s, r1, r2, log, log', hl => by
+    obtain ⟨h1, h2, h3, h4⟩ := h it s log log' hl
+    rw [solveLoop_succ', solveLoop_succ', h1, h2, h3]
+    split_ifs with hb
+    · exact ⟨rfl, rfl, rfl, rfl, rfl, h4⟩
+    · exact solveLoop_same step step' thr h n (it + 1) _ _ _ _ _ h4
+
+
+end Van
+
 end Cfr
